@@ -17,6 +17,10 @@ EXTENDS Naturals, Sequences, FiniteSets, TLC, Json
 CONSTANTS MaxLen, EmitRecords
 
 VARIABLES route,     \* model name -> "default" | "other" | "both"
+          catchAll,  \* TRUE: db_for_read / db_for_write answer "default" for every model the router has
+                     \* no rule for, Django Evolution's own Version / Evolution models included (the
+                     \* primary/replica pattern of Django's documentation); FALSE: they answer None.
+                     \* What is recorded about evolving database d is written on d either way.
           evo,       \* the evolution: sequence of mutations
           target,    \* the models after the evolution (what models.py says)
           order,     \* databases in the order they are evolved
@@ -25,7 +29,7 @@ VARIABLES route,     \* model name -> "default" | "other" | "both"
           recorded,  \* database -> has the evolution been recorded as applied
           phase, done
 
-vars == <<route, evo, target, order, db, sig, recorded, phase, done>>
+vars == <<route, catchAll, evo, target, order, db, sig, recorded, phase, done>>
 
 Models == {"A", "B", "C"}
 DBs == {"default", "other"}
@@ -65,6 +69,7 @@ Routes == DBs \cup {"both"}
 On(r, m, d) == RouteOf(r, m) = d \/ RouteOf(r, m) = "both"      \* schema of m is allowed on d
 
 Init == /\ route \in [Models -> Routes]
+        /\ catchAll \in BOOLEAN
         /\ order \in { <<"default", "other">>, <<"other", "default">> }
         /\ evo = <<>> /\ target = All0
         /\ db = [d \in DBs |-> Only(All0, route, d)]
@@ -74,9 +79,9 @@ Init == /\ route \in [Models -> Routes]
 
 Extend(mu) == /\ phase = "build" /\ Len(evo) < MaxLen /\ Valid(target, mu)
               /\ evo' = Append(evo, mu) /\ target' = Apply(target, mu)
-              /\ UNCHANGED <<route, order, db, sig, recorded, phase, done>>
+              /\ UNCHANGED <<route, catchAll, order, db, sig, recorded, phase, done>>
 Deploy == /\ phase = "build" /\ evo # <<>> /\ phase' = "evolve"
-          /\ UNCHANGED <<route, evo, target, order, db, sig, recorded, done>>
+          /\ UNCHANGED <<route, catchAll, evo, target, order, db, sig, recorded, done>>
 
 (* the mutations that concern database d, in order *)
 RECURSIVE Mine(_, _, _)
@@ -89,7 +94,7 @@ Evolve(d) == /\ phase = "evolve" /\ Len(done) < Len(order) /\ order[Len(done) + 
              /\ sig' = [sig EXCEPT ![d] = DOMAIN db'[d]]
              /\ recorded' = [recorded EXCEPT ![d] = TRUE]
              /\ done' = Append(done, d)
-             /\ UNCHANGED <<route, evo, target, order, phase>>
+             /\ UNCHANGED <<route, catchAll, evo, target, order, phase>>
 
 Next == (\E mu \in Mutations : Extend(mu)) \/ Deploy \/ (\E d \in DBs : Evolve(d))
 Spec == Init /\ [][Next]_vars
@@ -106,7 +111,7 @@ Converged == (Len(done) = 2) =>
                 \A d \in DBs : db[d] = Only(target, route, d) /\ sig[d] = DOMAIN db[d]
 
 Emit == (EmitRecords /\ phase = "evolve" /\ Len(done) = 2) =>
-          PrintT(<<"REC", ToJson([route |-> route, evo |-> evo, order |-> order,
+          PrintT(<<"REC", ToJson([route |-> route, catchAll |-> catchAll, evo |-> evo, order |-> order,
                                    expected |-> [d \in DBs |-> [n \in DOMAIN db[d] |->
                                         [fields |-> db[d][n].fields, maxlen |-> db[d][n].maxlen]]]])>>)
 Constraint == Emit
